@@ -289,6 +289,19 @@ func (ctx *RenderContext) GetVariableOrNil(name string) interface{} {
 	return value
 }
 
+// shadowVariable remembers the current binding of name in this context and
+// returns a function that puts it back (or removes the name again)
+func (ctx *RenderContext) shadowVariable(name string) func() {
+	previous, existed := ctx.context[name]
+	return func() {
+		if existed {
+			ctx.context[name] = previous
+		} else {
+			delete(ctx.context, name)
+		}
+	}
+}
+
 // SetVariable sets a variable in the context
 func (ctx *RenderContext) SetVariable(name string, value interface{}) {
 	ctx.context[name] = value
